@@ -40,6 +40,9 @@ CLAIMS = {
  "C11": ("abstract interpretation of the repo's AST over a polynomial element domain with symbolic weights, biases and filter bank (output block == defining sum + prescribed bias term; emitted types == reachable targets)",
          "Decides for the swept signatures (several key orders, unequal channel counts), the five documented bias settings, padding modes, stride, dilations, torus flags, banks with a missing filter type and both code paths (individual_convolve via __call__, fast_convolve) that every output block equals the defining sum as a polynomial identity in inputs, weights, biases and filters, and that no reachable requested block is dropped.",
          "Trusted: conv/einsum models; initial random values are irrelevant because parameters are symbols; the signature/option box is finite.", "3/C11"),
+ "C10": ("abstract interpretation of the repo's AST with the inner model as an uninterpreted function symbol (wrapper(h.x) == h.wrapper(x) as exact terms; group-average definition; round trips)",
+         "Decides for B_2 and four subgroups, all h in G, signatures incl. pseudo-types, that GroupAverage equals (1/|G|) sum_g g^-1.M(g.x) and commutes with every h for an uninterpreted inner model M (hence for every model), and returns the inner result when averaging is off; for Climate1D: from1d(to1d(x)) == x for every insertion order, extents and step counts, the longitude flip becomes the 1-D reflection, get_1d_signature agrees with to1d, and the wrapper commutes with the equator reflection for an uninterpreted 1-D model; ModelWrapper around the identity restores its input.",
+         "Trusted: the operators handed to GroupAverage are closed under product (the caller's premise); D=2 groups only; the group action itself is C02.", "3/C10"),
 }
 
 NA_REASON = "check not built yet in this session (build in progress); see DESIGN.md section 3 for the planned static rule"
